@@ -143,3 +143,6 @@ func (m *MapOf[K, V]) VerifShrinkTo(n int) {
 // VerifResizing reports the resize-in-progress flag.
 func (m *Map) VerifResizing() bool        { return atomic.LoadInt64(&m.resizing) == 1 }
 func (m *MapOf[K, V]) VerifResizing() bool { return atomic.LoadInt64(&m.resizing) == 1 }
+
+// VerifDefaultHasher exposes defaultHasher.
+func VerifDefaultHasher[K comparable]() func(K, uint64) uint64 { return defaultHasher[K]() }
